@@ -93,6 +93,11 @@ func (s *Server) cmdCLIENT(msg *Message, client *Client) (resp.Value, error) {
 					kv = strings.TrimSpace(kv)
 					if split := strings.SplitN(kv, "=", 2); len(split) == 2 {
 						hasFields = true
+						if split[0] == "name" {
+							// a name is a string, also when it reads as a number
+							m[split[0]] = split[1]
+							continue
+						}
 						m[split[0]] = tryParseType(split[1])
 					}
 				}
